@@ -9,7 +9,7 @@ use text2num::{replace_numbers_in_text, text2digits};
 pub fn run(tier: Tier) -> i32 {
     let ctx = Ctx::new("C16", tier);
     let dense = tier.pick(100_000u64, 1_000_000);
-    let kmax = tier.pick(4usize, 6);
+    let kmax = 6usize;
     let gset: Vec<u32> = tier.pick(G_Q.to_vec(), G_T.to_vec());
     // shards: (lang, kind, lo, hi)
     let mut shards: Vec<(L, u8, u64, u64)> = vec![];
